@@ -60,6 +60,12 @@ def check_word(s, ctx, acc, sub='be'):
         return None
     lw, tnodes = res
     tc = canon.canon_node(tnodes)
+    # the pylatexenc-2 style entry point must be total as well
+    st3, res3 = run_guarded(_legacy_get_latex_nodes, s, ctx)
+    if st3 != 'ok':
+        acc.violation(ID, sub, case, dict(kind='hang' if st3 == 'timeout' else 'exception', via='get_latex_nodes',
+                                          exc=type(res3).__name__ if st3 == 'exc' else None,
+                                          frame=exc_frame(res3) if st3 == 'exc' else None), observed=repr(res3)[:300])
     st2, res2 = run_guarded(contexts.parse, s, ctx, False)
     if st2 == 'ok':
         acc.count('strict_accepted')
@@ -76,6 +82,12 @@ def check_word(s, ctx, acc, sub='be'):
         if tnodes is None:
             acc.count('tolerant_none_on_invalid')
     return tnodes
+
+
+def _legacy_get_latex_nodes(s, ctx):
+    from pylatexenc.latexwalker import LatexWalker
+    lw = LatexWalker(s, latex_context=contexts.get(ctx), tolerant_parsing=True)
+    return lw.get_latex_nodes()
 
 
 def check_suffix(doc_text, ctx, closer, garbage, expected_prefix, acc):
@@ -123,14 +135,20 @@ def run_shard(shard, tier, acc):
         gw1, gw2 = garbage_words(1), garbage_words(2)
         for doc in docgen.iter_shard(tier, sh, purpose='prefix'):
             gw = gw2 if (len(doc.items) == 1 and tier == 'thorough') else gw1
-            exp = _expected_prefix(doc.text, doc.ctx)
-            if exp is None:
-                acc.count('prefix_docs_not_strictly_parseable')   # C02 decides that
-                continue
-            acc.count('prefix_docs')
-            for closer in CLOSERS:
-                for g in gw:
-                    check_suffix(doc.text, doc.ctx, closer, g, exp, acc)
+            for sp in ('', ' ', '\n'):
+                # U may be followed by whitespace before the stray closer: that whitespace is content
+                # parsed before the error as well
+                text = doc.text + sp
+                exp = _expected_prefix(text, doc.ctx)
+                if exp is None:
+                    acc.count('prefix_docs_not_strictly_parseable')   # C02 decides that
+                    continue
+                acc.count('prefix_docs')
+                for closer in CLOSERS:
+                    if sp and closer == ']':
+                        continue     # ']' is an ordinary character at top level and merges with the whitespace
+                    for g in (gw if not sp else gw1[:4]):
+                        check_suffix(text, doc.ctx, closer, g, exp, acc)
             acc.sample(dict(doc=doc.text, ctx=doc.ctx))
 
 
